@@ -181,16 +181,30 @@ def run_sequences(out, stream, cls, seqs):
                 elif k == 8: outl.append(prev[:-1] + "t")
                 else: prev = next(it); outl.append(prev)
             mo[j] = "".join(x + "|" for x in outl)
+    # the Spec's own reading of each history (Spec/Client.v, extracted): flag and connections accepted after every action
+    sp = lib.run_model([lib.req("client_spec", [a for a in model_acts(s, cls is SwitcherType2Api) if a[0] != 8]) for s in seqs])
+    def coq_judge(s_, t, spec):
+        it = iter(spec.split("|")[:-1]); cur = "c0"
+        for (k, f), st in zip(s_, t.split("|")[:-1]):
+            if not (k == 8 or (k, f) == (2, 3)): cur = next(it)
+            if st == "never-returned": return "ok"          # reported by the clause judge
+            flag, counts = st[0], st[1:-1].split(",")
+            if flag != cur[0]: return "connected is %s where the history (Spec/Client.v) says %s after %s (%s)" % (flag == "C", cur[0] == "C", NAMES[k], st)
+            if int(counts[0]) + int(counts[1]) != int(cur[1:]):
+                return "the device holds %s and saw the end of %s connections where it accepted %s after %s (%s)" % (counts[0], counts[1], cur[1:], NAMES[k], st)
+            if int(counts[0]) != (1 if cur[0] == "C" else 0): return "the device holds %s open connections while connected is %s after %s (%s)" % (counts[0], cur[0] == "C", NAMES[k], st)
+        return "ok"
+    coq_verdicts = [coq_judge(s_, t, spc) if t is not None else "ok" for s_, t, spc in zip(seqs, io, sp)]
     skipped = [j for j, t in enumerate(io) if t is None]
     if skipped:
         out.notes.append("%d sequences were not run after three sequences had ended in a call that never returned" % len(skipped))
         keep = [j for j, t in enumerate(io) if t is not None]
-        seqs = [seqs[j] for j in keep]; io = [io[j] for j in keep]; mo = [mo[j] for j in keep]
+        seqs = [seqs[j] for j in keep]; io = [io[j] for j in keep]; mo = [mo[j] for j in keep]; coq_verdicts = [coq_verdicts[j] for j in keep]
     names = NAMES
     cases = [{"cls": cls.__name__, "acts": [list(a) for a in s]} for s in seqs]
     lib.differential(out, stream, cases, io, mo, ["ok"] * len(cases), lambda c: c["cls"] + ": " + ", ".join("%s(%d)" % (names[k], f) for k, f in c["acts"]),
                      nontrivial=lambda c: any((k == 0 or 3 <= k <= 7) and f for k, f in c["acts"]), sample=lambda c: c, classify=lambda c, i: c["cls"] + "/len%d" % len(c["acts"]),
-                     impl_spec=[spec_judge(s, t) for s, t in zip(seqs, io)])
+                     impl_spec=[(lambda a, b: a if a != "ok" else b)(spec_judge(s, t), v) for s, t, v in zip(seqs, io, coq_verdicts)])
 
 
 def run(tier, rnd, out):
